@@ -104,8 +104,12 @@ func ParseSelect(statement *sqlparser.Select) (logical.Node, *OutputOptions, err
 		aliases := make([]string, len(statement.SelectExprs))
 	selectExprLoop:
 		for i := range statement.SelectExprs {
-			inExpr := statement.SelectExprs[i].(*sqlparser.AliasedExpr).Expr
-			aliases[i] = statement.SelectExprs[i].(*sqlparser.AliasedExpr).As.String()
+			aliasedExpr, ok := statement.SelectExprs[i].(*sqlparser.AliasedExpr)
+			if !ok {
+				return nil, nil, errors.Errorf("expression with index %d in a grouping select must be a key or an aggregate, got %v", i, reflect.TypeOf(statement.SelectExprs[i]))
+			}
+			inExpr := aliasedExpr.Expr
+			aliases[i] = aliasedExpr.As.String()
 			agg, expr, err := ParseAggregate(inExpr)
 			if err == nil {
 				isAggregate[i] = true
